@@ -38,13 +38,45 @@ def install_markers():
 MECHANISMS = ("cast_sext",)
 
 
-def signature(src: str, r):
+def routine_signature(src: str, subs):
+    """listed findings about inlined routine bodies, from the SOURCES of caller and callees (subs: [(name, ret, params, body)]):
+       return_does_not_leave  - a callee has a `return` that is not in tail position;
+       callee_locals_shared   - a source-level local of a callee (declared name or implicit i/j/k/EA) is also a name the caller or
+                                another callee of the program uses.
+    -> (mechanism, names) or (None, None)"""
+    from . import cparse as CP
+
+    try:
+        frames = [("<caller>", CP.parse(src), ())]
+        for name, ret, params, body in subs:
+            frames.append((name, CP.parse(body), tuple(re.findall(r"\w+", p_)[-1] for p_ in params)))
+    except CP.ParseError:
+        return None, None
+    for name, ast, params in frames[1:]:
+        if CP.has_early_return(ast):
+            return "return_does_not_leave", [name]
+    shared = set()
+    for k, (name, ast, params) in enumerate(frames[1:], 1):
+        loc = CP.local_names(ast, params)
+        for j, (n2, a2, p2) in enumerate(frames):
+            if j != k:
+                shared |= loc & (CP.used_names(a2) - set(p2) if j else CP.used_names(a2))
+    if shared:
+        return "callee_locals_shared", sorted(shared)
+    return None, None
+
+
+def signature(src: str, r, subs=()):
     """Signature classifiers (structural mechanisms). Returns the mechanism name or None.
     The predicate must hold for the source AND the observed discrepancy must be the one described."""
     from . import cparse as CP
 
     if r.verdict() != "diff" or not r.diff_keys:
         return None
+    if subs:
+        mech, _ = routine_signature(src, subs)
+        if mech:
+            return mech
     if re.search(r"\bHEX_SETROUND\(", src):
         # the statement leaves no trace in the emitted code (listed finding); the conversions that follow use the default rounding mode
         return "setround_dropped"
